@@ -102,13 +102,45 @@ func (r *run) crashImages(root, template string, log []simos.Effect, seed uint64
 	points := r.pickCrashPoints(log, want, seed)
 	points = append(points, len(log))
 	for _, k := range points {
-		if !r.recoverImage(root, template, log, k, final) {
+		if !r.recoverImage(root, template, log, k, -1, final) {
+			return
+		}
+	}
+	// prefix truncations of the append-only block index (the data file keeps its - then unreferenced - tail):
+	// the last records are lost, at record boundaries and inside a record
+	idx, err := os.ReadFile(filepath.Join(r.dir, "blockchain.new"))
+	if err != nil {
+		return
+	}
+	n := len(idx) / 136
+	rng := hx.NewRng(seed ^ 0x7C)
+	var cuts []int
+	for back := 1; back <= 6 && back <= n-prefixLen+2; back++ {
+		cuts = append(cuts, (n-back)*136)
+	}
+	if n > 2 {
+		cuts = append(cuts, (n-1)*136+1+rng.Intn(135), (n-2)*136+1+rng.Intn(135))
+	}
+	if want >= 0 && len(cuts) > 4 {
+		// quick tier: a seeded subset
+		for i := len(cuts) - 1; i > 0; i-- {
+			j := rng.Intn(i + 1)
+			cuts[i], cuts[j] = cuts[j], cuts[i]
+		}
+		cuts = cuts[:4]
+	}
+	for _, c := range cuts {
+		if c < 0 {
+			continue
+		}
+		if !r.recoverImage(root, template, log, len(log), c, final) {
 			return
 		}
 	}
 }
 
-func (r *run) recoverImage(root, template string, log []simos.Effect, k int, final *ledger.Node) bool {
+// truncIdx >= 0: additionally truncate blockchain.new of the image to that many bytes.
+func (r *run) recoverImage(root, template string, log []simos.Effect, k int, truncIdx int, final *ledger.Node) bool {
 	img := filepath.Join(root, "img")
 	os.RemoveAll(img)
 	if err := simos.Materialize(template, log, k, -1, img); err != nil {
@@ -119,7 +151,19 @@ func (r *run) recoverImage(root, template string, log []simos.Effect, k int, fin
 	defer os.RemoveAll(img)
 	out := r.out
 	out.Evals++
-	out.Fault("process_death_at_fs_effect", 1)
+	truncNote := ""
+	if truncIdx >= 0 {
+		if err := os.Truncate(filepath.Join(img, "blockchain.new"), int64(truncIdx)); err != nil {
+			return true
+		}
+		out.Fault("block_index_prefix_truncation", 1)
+		truncNote = fmt.Sprintf("block index truncated to %d bytes (%d records + %d bytes); ", truncIdx, truncIdx/136, truncIdx%136)
+		if truncIdx%136 != 0 {
+			out.Probe("truncation_inside_a_record", 1)
+		}
+	} else {
+		out.Fault("process_death_at_fs_effect", 1)
+	}
 	if k < len(log) {
 		e := &log[k]
 		base := filepath.Base(e.Path)
@@ -144,7 +188,7 @@ func (r *run) recoverImage(root, template string, log []simos.Effect, k int, fin
 			out.Probe("crash_in_background_goroutine", 1)
 		}
 	}
-	desc := describeEffects(log, k)
+	desc := truncNote + describeEffects(log, k)
 	simos.Reset(img)
 	ok := true
 	// undo files are named by height only.  Does the image hold, for a height of the SNAPSHOT's chain,
@@ -267,8 +311,15 @@ func (r *run) recoverImage(root, template string, log []simos.Effect, k int, fin
 		}
 		sub.n.Close()
 	})
-	if !out.Absorb(r.prop, "recovery", &res) {
+	phase := "recovery"
+	if truncIdx >= 0 {
+		phase = "recovery-after-truncation"
+	}
+	if !out.Absorb(r.prop, phase, &res) {
 		if n := len(out.Violations); n > 0 {
+			if truncIdx >= 0 && snapshotBeyondIndex(img) {
+				out.Violations[n-1].Class = "truncation.snapshot-block-not-in-index"
+			}
 			if staleUndo != "" {
 				out.Violations[n-1].Class = "crash.undo-file-of-other-branch"
 				out.Violations[n-1].Msg += " | " + staleUndo
@@ -288,4 +339,20 @@ func workOf(n *ledger.Node) string {
 		return "unknown block"
 	}
 	return n.CumWork.String()
+}
+
+// snapshotBeyondIndex: does the snapshot in img name a block whose header is not among the index records?
+func snapshotBeyondIndex(img string) bool {
+	snap, err := os.ReadFile(filepath.Join(img, "UTXO.db"))
+	if err != nil || len(snap) < 40 {
+		return false
+	}
+	idx, _ := os.ReadFile(filepath.Join(img, "blockchain.new"))
+	for off := 0; off+136 <= len(idx); off += 136 {
+		h := ledger.Sha256d(idx[off+56 : off+136])
+		if string(h[:]) == string(snap[8:40]) {
+			return false
+		}
+	}
+	return true
 }
